@@ -86,6 +86,10 @@ Theorem C08_flow_sound : forall p : prog, flow_ok p = true -> forall s', exec p 
 Proof. exact flow_ok_sound. Qed.
 Print Assumptions C08_flow_sound.
 
+(* (every `coef = ...` in these methods must be `P @ rhs` with P a pseudo-inverse of the row-scaled Vandermonde -- a name
+   only ever bound to the last result of _setup_polynomial(calc_pinv=True) or to np.linalg.pinv(s[:, None] * V) -- or
+   np.linalg.lstsq on that tall matrix; any other solve, e.g. through V'WV, is the event ECoefOther, which no accepted
+   program contains: that is the situation in which C08_pinv_optimal / C08_poly_weighted_optimal apply) *)
 (* the table generated from the CURRENT source: all 12 methods with a return_coef parameter (loess exempt, see
    tools/gen_polyflow.py) return `vandermonde @ coef` for the coef they report, on every path; dietrich only
    "reported coef belongs to the returned baseline" because max_iter = 0 documents an interpolated baseline *)
